@@ -69,7 +69,7 @@ theorem own_pawn (w : Bool) (p : Pc) (hk : kind p = 6) (ho : own w p = true) : p
   · exact (pc_fact p).2.1 hk (by simpa [own] using ho)
   · exact (pc_fact p).1 hk (by simpa [own] using ho)
 
-theorem own_ne_zero (w : Bool) (p : Pc) (ho : own w p = true) : p ≠ 0 := by
+theorem own_ne_zero_um (w : Bool) (p : Pc) (ho : own w p = true) : p ≠ 0 := by
   cases w
   · exact (pc_fact p).2.2.2.2.1 (by simpa [own] using ho)
   · exact (pc_fact p).2.2.2.1 (by simpa [own] using ho)
@@ -96,7 +96,7 @@ def kingRule (p : Pos) (m : Mv) : Bool :=
 
 def preRule (p : Pos) (m : Mv) : Bool := own p.wtm (p.at m.f) && !own p.wtm (p.at m.t) && m.f != m.t
 
-theorem pseudo_pawn (p : Pos) (m : Mv) (h : kind (p.at m.f) = 6) : pseudo p m = (preRule p m && pawnRule p m) := by
+theorem pseudo_pawn_um (p : Pos) (m : Mv) (h : kind (p.at m.f) = 6) : pseudo p m = (preRule p m && pawnRule p m) := by
   unfold pseudo pawnRule preRule
   simp only
   split
@@ -373,7 +373,7 @@ theorem unmake_apply_board (P : Pos) (m : Mv) (hp : pseudo P m = true) (hs : epS
       · exact unmake_plain P m hne (by simp [a]) (by simp [b]) (by simp [e6]) (fun h => absurd hpr h)
   · have e1 : (kind (P.at m.f) == 1) = false := by simpa using k1
     by_cases k6 : kind (P.at m.f) = 6
-    · rw [pseudo_pawn P m k6, Bool.and_eq_true] at hp
+    · rw [pseudo_pawn_um P m k6, Bool.and_eq_true] at hp
       obtain ⟨hpre, hk⟩ := hp
       obtain ⟨ho, _, hne⟩ := preRule_facts P m hpre
       by_cases e : P.ep = some m.t
@@ -443,7 +443,7 @@ theorem any_rayReach_aligned (b : Board) (m : Mv) (l : List (Int × Int)) (hl : 
 
 theorem pseudo_geom (p : Pos) (m : Mv) (h : pseudo p m = true) : geomB (p.at m.f) m = true := by
   by_cases k6 : kind (p.at m.f) = 6
-  · rw [pseudo_pawn p m k6, Bool.and_eq_true] at h
+  · rw [pseudo_pawn_um p m k6, Bool.and_eq_true] at h
     have hr := h.2
     unfold geomB
     rw [k6]
@@ -529,7 +529,7 @@ theorem square_stays (P : Pos) (m : Mv) (i : Nat) (hp : pseudo P m = true) (hi :
 theorem pseudo_own_f (P : Pos) (m : Mv) (hp : pseudo P m = true) : own P.wtm (gt P.b m.f.val) = true := by
   rw [← gt_at]
   by_cases k6 : kind (P.at m.f) = 6
-  · rw [pseudo_pawn P m k6, Bool.and_eq_true] at hp; exact (preRule_facts P m hp.1).1
+  · rw [pseudo_pawn_um P m k6, Bool.and_eq_true] at hp; exact (preRule_facts P m hp.1).1
   · by_cases k1 : kind (P.at m.f) = 1
     · rw [pseudo_king P m k1, Bool.and_eq_true] at hp; exact (preRule_facts P m hp.1).1
     · rw [pseudo_other P m k6 k1, Bool.and_eq_true] at hp; exact (preRule_facts P m hp.1).1
